@@ -508,7 +508,19 @@ impl Oracle for TransportOracle {
                 let live = self.clauses.reliable_live && cx.plan.param("expect_live", 0.0) != 0.0;
                 let ideal = self.clauses.ideal;
                 if live || ideal {
+                    // (families in which the applications end nothing, the link loses nothing and
+                    // every data frame is answered well inside the silence timeout: there the end of
+                    // a connection excuses no lost packet)
+                    let must_last = live && cx.plan.param("connection_must_last", 0.0) != 0.0;
                     for ((src, dst), dir) in self.dirs.iter() {
+                        if dir.ended && must_last {
+                            if let Some((i, s)) = dir.subs.iter().enumerate().find(|(_, s)| s.mode == MODE_RELIABLE && !s.delivered) {
+                                let d = format!(
+                                    "{} -> {}: submission #{} ({}, call {}) was never delivered ({} of {} delivered): the connection ended although the link lost nothing, both applications kept stepping and neither side was silent for its timeout",
+                                    src, dst, i, describe(&s.payload), s.call, dir.delivered, dir.subs.len());
+                                return viol(prop, "reliable_not_delivered", d, 0);
+                            }
+                        }
                         if dir.ended {
                             // the connection itself ended (timeout, disconnect, drop): what was
                             // still queued is lost with it, which is not this property's business
